@@ -1,16 +1,32 @@
+import os as _os
+_REPO = _os.environ.get("VERIF_REPO", "/repo")
+_VERIF = _os.path.dirname(_os.path.dirname(_os.path.dirname(_os.path.abspath(__file__)))) if "__file__" in globals() else "/verif"
+# asyncbufio.go: besides the automatic points at channel operations / selects, opt-in points (switched on per
+# scenario by the package-level bool VerifStallPoints of the seam file) before every call into the bufio.Writer
+# ("disk" write / flush) and before every atomic operation
+_ASYNC_INSTRUMENT = {"files": {"asyncbufio/asyncbufio.go": {"call_points": ["*.Write", "*.Flush"], "atomics": True, "opt_guard": "VerifStallPoints"}}}
+# the periodic-flush ticker of writeLoop becomes a seam (default: time.NewTicker itself)
+_ASYNC_TEXTPATCH = [{"file": "asyncbufio/asyncbufio.go", "old": "time.NewTicker(aw.flushInterval)", "new": "VerifNewTicker(aw.flushInterval)"}]
+_ASYNC_OVERLAY = {_os.path.join(_REPO, "asyncbufio", "zz_verif_seam.go"): _os.path.join(_VERIF, "harness", "asyncbufio", "zz_verif_seam.go")}
 ENTRY = {
     "C07": {
         "pkg": ".", "hdir": "dastard", "harness": DASTARD_COMMON + ["zz_verif_files_test.go", "zz_verif_c07_test.go"], "test": "TestVerifC07",
         "engines": ["vexp", "vhook"], "runtime_patch": True, "gomaxprocs": 1,
-        "instrument": {"files": {"asyncbufio/asyncbufio.go": {}}},
+        "instrument": _ASYNC_INSTRUMENT,
         "textpatch": [{"file": "ljh/ljh.go", "old": "const WRITECHANCAPACITY = 1000", "new": "var WRITECHANCAPACITY = 1000"},
-                      {"file": "off/off.go", "old": "const WRITECHANCAPACITY = 1000", "new": "var WRITECHANCAPACITY = 1000"}],
-        "quick": T(16, 90), "thorough": T(16, 900),
+                      {"file": "off/off.go", "old": "const WRITECHANCAPACITY = 1000", "new": "var WRITECHANCAPACITY = 1000"}] + _ASYNC_TEXTPATCH,
+        "_extra_overlay": _ASYNC_OVERLAY,
+        "quick": T(16, 180), "thorough": T(16, 900),
         "rule": "one execution = one complete interleaving (at synchronisation-operation granularity, iteratively preemption-bounded, all select alternatives) of the "
                 "producer thread with the real asyncbufio.writeLoop goroutine, for one (writer type, queue depth, record count, flush position); the file is read back "
-                "when Flush and Close return; non-trivial = at least one preemption or at least one rejected write (queue full)",
+                "when Flush and Close return; non-trivial = at least one preemption or at least one rejected write (queue full); tick scenarios: a clock thread under the same "
+                "scheduler additionally offers 1-2 periodic-flush ticks, every call into the bufio.Writer and every atomic operation of asyncbufio.go is a scheduling point as well; "
+                "non-trivial there = writeLoop took its periodic-flush case at least once",
         "assumptions": ["queue depth constant (1000) made settable and explored at 2..12; Write/Flush/Close/writeLoop/flush and the three WriteRecord functions are the real code",
-                        "the periodic flush ticker (3 s) does not fire within an execution; its action is the same flush() as an explicit Flush",
+                        "periodic flushes: the ticker of writeLoop is a seam (time.NewTicker by default; the call is text-patched, nothing else) fed in the tick scenarios by a clock thread that offers a bounded "
+                        "number of ticks (1; 2 for the bare asynchronous writer) at arbitrary points of the execution, through a channel with the real ticker's one-element buffer; there the consumer can "
+                        "also be stalled immediately before every bufio Write / Flush call (between draining the queue and the disk write) and at every atomic operation; these scenarios are small "
+                        "(1-2 records, one queue depth per format, preemption bound 3); in all other scenarios the real 3 s ticker is used and does not fire within an execution",
                         "one producer per writer (as in dastard: a channel's records are published by one goroutine at a time)"],
         "technique": "stateless model checking of the real goroutines under a controlled scheduler (preemption-bounded DFS over scheduling and select choices)",
     },
